@@ -188,6 +188,9 @@ func vmDBExec(db *sql.DB, query string, args ...any) (sql.Result, error) {
 
 //verif:redirect (*database/sql.DB).ExecContext
 func vmDBExecContext(db *sql.DB, ctx context.Context, query string, args ...any) (sql.Result, error) {
+	if err := ctx.Err(); err != nil {
+		return nil, err // database/sql does not start a statement under a context that is already done
+	}
 	p, err := vmAcquire(db, ctx)
 	if err != nil {
 		return nil, err
@@ -227,6 +230,11 @@ func vmQueryPooled(db *sql.DB, d *vmDatabase, ctx context.Context, query string,
 }
 
 func vmQueryRowPooled(db *sql.DB, d *vmDatabase, ctx context.Context, query string, args []any) *sql.Row {
+	if cerr := ctx.Err(); cerr != nil {
+		row := new(sql.Row)
+		vmRowOf[row] = &vmRow{err: cerr}
+		return row
+	}
 	p, err := vmAcquire(db, ctx)
 	if err != nil {
 		row := new(sql.Row)
@@ -265,6 +273,9 @@ func vmTxDone(tx *sql.Tx) {
 
 //verif:redirect (*database/sql.Tx).ExecContext
 func vmTxExecContext(tx *sql.Tx, ctx context.Context, query string, args ...any) (sql.Result, error) {
+	if err := ctx.Err(); err != nil {
+		return nil, err
+	}
 	return vmExec(vmTxs[tx], query, args)
 }
 
@@ -280,6 +291,9 @@ func vmStmtClose(s *sql.Stmt) error { return nil }
 //verif:redirect (*database/sql.Stmt).ExecContext
 func vmStmtExecContext(s *sql.Stmt, ctx context.Context, args ...any) (sql.Result, error) {
 	st := vmStmts[s]
+	if err := ctx.Err(); err != nil {
+		return nil, err
+	}
 	p, err := vmAcquire(st.sdb, ctx)
 	if err != nil {
 		return nil, err
